@@ -112,3 +112,17 @@ package enum
 //@   ensures forall j :: 0 <= j && j < old(len(e.values)) - 1 ==> e.values[j].Value == old(e.values[j].Value) && e.values[j].Type == old(e.values[j].Type) && e.values[j].Comment == old(e.values[j].Comment)
 //@   loop 0 invariant e != nil && scan != nil && len(e.values) >= old(len(e.values)) && (collectLiteral ==> len(e.values) > 0)
 //@   loop 0 invariant forall j :: 0 <= j && j < old(len(e.values)) - 1 ==> e.values[j].Value == old(e.values[j].Value) && e.values[j].Type == old(e.values[j].Type) && e.values[j].Comment == old(e.values[j].Comment)
+
+// C18/C16: GetAST lists the rule's values one to one, in order: text, note, kind
+// (a value without text is a stand-alone comment)
+//@ func (*Enum).buildASTNode$1()
+//@   props C18 C16
+//@   requires e != nil
+//@   nopanic
+//@   ensures tag(result1) == 0 && result0.TokenType == jschema.TokenTypeArray && len(result0.Children) == len(e.values)
+//@   ensures forall k :: 0 <= k && k < len(e.values) ==> result0.Children[k].Comment == e.values[k].Comment && spells(e.values[k].Value, result0.Children[k].Value)
+//@   ensures forall k :: 0 <= k && k < len(e.values) ==> (e.values[k].Value.$arr == 0 ? (result0.Children[k].TokenType == jschema.TokenTypeNull && result0.Children[k].SchemaType == "comment") : (result0.Children[k].TokenType == tokenOfSchemaType(e.values[k].Type) && result0.Children[k].SchemaType == e.values[k].Type))
+//@   loop 0 invariant len(an.Children) == rangeindex + 1 && (an.Children.$arr == 0 || fresh(an.Children)) && rangeindex < len(e.values) && an.TokenType == jschema.TokenTypeArray
+//@   loop 0 invariant forall k :: 0 <= k && k <= rangeindex ==> an.Children[k].Comment == e.values[k].Comment && spells(e.values[k].Value, an.Children[k].Value)
+//@   loop 0 invariant forall k :: 0 <= k && k <= rangeindex ==> (e.values[k].Value.$arr == 0 ? (an.Children[k].TokenType == jschema.TokenTypeNull && an.Children[k].SchemaType == "comment") : (an.Children[k].TokenType == tokenOfSchemaType(e.values[k].Type) && an.Children[k].SchemaType == e.values[k].Type))
+//@   loop 0 decreases len(e.values) - rangeindex
